@@ -6,7 +6,7 @@ from vlib import build, pipeline, tlc
 
 LEVEL = "model_checking"
 SPEC_DIR = "PQ"
-SIZES = [1, 2, 3, 8, 127, 128, 129, 300]
+SIZES = [1, 2, 3, 8, 127, 128, 129, 255, 256, 257, 300, 384]   # around and at multiples of the 128-byte swap slice
 
 
 def prepare(ctx):
@@ -39,7 +39,7 @@ def random_exec(rng, nops):
         r = rng.random()
         if r < 0.45:
             h = 0
-            free = [x for x in (1, 2, 3, 4) if x not in inq]
+            free = [x for x in range(1, 13) if x not in inq]
             if free and rng.random() < 0.5 and not (first_handle_late and size < 3 and i < 6):
                 h = rng.choice(free)
             idv = nid if isz != 2 else nid % 256
@@ -61,7 +61,7 @@ def random_exec(rng, nops):
         elif r < 0.75:
             lines.append("TOP")
         elif r < 0.95:
-            h = rng.choice((1, 2, 3, 4))
+            h = rng.choice(range(1, 13))
             lines.append("REMOVE %d" % h)
             if h in inq:
                 inq.discard(h)
@@ -72,6 +72,40 @@ def random_exec(rng, nops):
             size = 0
         if isz == 2 and nid > 250:
             break
+    return lines
+
+
+def big_heap_exec(rng):
+    """fill a heap of 8..30 distinct-ish values (most elements carry a handle), then remove through handles at every
+    depth of the heap and pop in between: removal from the middle of a larger heap is where the re-sift decisions
+    (up or down, leaf or inner slot, moved element from another branch) are made"""
+    isz = rng.choice([3, 8, 129, 256])
+    lines = ["RESET dyn %d %d" % (rng.choice([0, 4, 32]), isz)]
+    n = rng.randint(8, 30)
+    vals = list(range(n)) if rng.random() < 0.6 else [rng.randrange(n) for _ in range(n)]
+    rng.shuffle(vals)
+    nid = 1
+    busy = []
+    free = list(range(1, 13))
+    for v in vals:
+        h = 0
+        if free and rng.random() < 0.8:
+            h = free.pop(rng.randrange(len(free)))
+            busy.append(h)
+        lines.append("PUSH %d %d %d" % (v % 200, nid, h))
+        nid += 1
+    for _ in range(rng.randint(6, 20)):
+        r = rng.random()
+        if r < 0.55 and busy:
+            h = busy.pop(rng.randrange(len(busy)))
+            lines.append("REMOVE %d" % h)       # (the handle stays unusable for the driver: it may or may not be free)
+        elif r < 0.85:
+            lines.append("POP")
+        else:
+            lines.append("PUSH %d %d 0" % (rng.randrange(n) % 200, nid))
+            nid += 1
+    for _ in range(n):
+        lines.append("POP")
     return lines
 
 
@@ -99,7 +133,11 @@ def run(ctx):
     nrand = 1200 if not thorough else 30000
     for _ in range(nrand):
         execs.append(random_exec(rng, rng.randint(8, 70)))
+    nbig = 500 if not thorough else 10000
+    for _ in range(nbig):
+        execs.append(big_heap_exec(rng))
     ctx.extra["random_scripts"] = nrand
+    ctx.extra["big_heap_scripts"] = nbig
     for ex in execs:
         ctx.evaluations += 1
         has_h = any(ln.startswith("PUSH") and not ln.endswith(" 0") for ln in ex)
